@@ -3,6 +3,7 @@
 
 pub mod mhttp;
 pub mod mock;
+pub mod inproc;
 pub mod tree;
 pub mod greq;
 pub mod net;
@@ -135,6 +136,7 @@ pub struct Ctx {
     pub real_stdout: RefCell<Option<std::fs::File>>,
     pub inflight_map: RefCell<Option<InflightMap>>,
     pub shrinking: RefCell<bool>,
+    pub auto_sample: RefCell<bool>,
 }
 
 impl Ctx {
@@ -209,8 +211,10 @@ impl Ctx {
                 drop(r);
                 if *nontrivial {
                     self.nontrivial.borrow_mut().insert(key);
-                    let cls = classes.first().copied().unwrap_or("nontrivial");
-                    self.sample(cls, case);
+                    if *self.auto_sample.borrow() {
+                        let cls = classes.first().copied().unwrap_or("nontrivial");
+                        self.sample(cls, case);
+                    }
                 }
             }
             Verdict::Discard => { self.res.borrow_mut().discards += 1; }
@@ -277,9 +281,19 @@ impl Ctx {
         S::Value: Serialize + Clone + std::fmt::Debug,
         F: Fn(&S::Value) -> Verdict,
     {
+        self.prop_salted(section, "", cases, strategy, oracle)
+    }
+
+    /// Like `prop`, with an extra salt for the seed (several campaigns in one section, e.g. one per generated tree).
+    pub fn prop_salted<S, F>(&self, section: &str, salt: &str, cases: u64, strategy: S, oracle: F)
+    where
+        S: Strategy,
+        S::Value: Serialize + Clone + std::fmt::Debug,
+        F: Fn(&S::Value) -> Verdict,
+    {
         self.set_section(section);
         if cases == 0 { return; }
-        let s = mix_seed(self.seed, &format!("{}/{}", self.property, section), self.worker);
+        let s = mix_seed(self.seed, &format!("{}/{}{}", self.property, section, salt), self.worker);
         let config = Config {
             cases: cases as u32,
             failure_persistence: None,
@@ -688,6 +702,7 @@ pub fn make_child_ctx(property: &str, tier: Tier, seed: u64, worker: u32, worker
         real_stdout: RefCell::new(None),
         inflight_map: RefCell::new(None),
         shrinking: RefCell::new(false),
+        auto_sample: RefCell::new(true),
     }
 }
 
